@@ -238,7 +238,7 @@ Proof.
   apply consumes_read_entity_id in H1 as [E1 L1]. subst s1.
   apply consumes_read_entity_id in H2 as [E2 L2]. subst s2.
   apply consumes_read_sn in H3 as [E3 L3]. subst s3.
-  rewrite !skipn_skipn in E. change (8 + (4 + 4))%nat with 16%nat in E.
+  rewrite !skipn_skipn in E. change (4 + (4 + 8))%nat with 16%nat in E.
   rewrite !len_skipn in *.
   apply pbind_inv_panic in E as [H|(st & s4 & H4 & E)].
   - apply read_fnset_panic in H. cbv zeta in H. destruct H as (Hl & Hm & Hb).
@@ -287,7 +287,7 @@ Proof.
   destruct (parse_sub id fl (sublen_of fl b2 b3) v') as [[sm|e|x] c]; cbn [fst] in *.
   - apply IH in Hr. destruct (sub_loop k _) as [[l|e|x] c']; cbn [fst is_panic] in *; auto.
   - apply IH in Hr. destruct (sub_loop k _) as [r c']; cbn [fst] in *; auto.
-  - cbn in Hp. rewrite Hp in Hb; [discriminate|reflexivity].
+  - rewrite Hp in Hb by reflexivity. discriminate.
 Qed.
 
 Theorem parse_message_total : forall v,
